@@ -269,6 +269,12 @@ def handlerWalk : Nat → Heap (Option Nat) → Nat → Option Nat
         | none => none
         | some p => handlerWalk fuel h p
 
+/-- `Express` / `onNack`: split the implicit digest off a name: (impSha256, nodeName) -/
+def splitDigest (final : Name) : Option Bytes × Name :=
+  match final.getLast? with
+  | none => (none, final)
+  | some last => if last.typ = tImplicitDigest then (some last.val, final.dropLast) else (none, final)
+
 /-! ## the step function -/
 
 def step (s : St) : Op → St × Out
@@ -276,9 +282,8 @@ def step (s : St) : Op → St × Out
     -- engine.go Express
     match final.getLast? with
     | none => (s, .exprErr)
-    | some last =>
-      let (dig, nodeName) :=
-        if last.typ = tImplicitDigest then (some last.val, final.dropLast) else (none, final)
+    | some _ =>
+      let (dig, nodeName) := splitDigest final
       let lifetime := life.getD defaultLife
       let deadline := s.now + lifetime
       let (pit1, n) := matchAlways [] s.pit nodeName
@@ -299,14 +304,17 @@ def step (s : St) : Op → St × Out
     ({ s with pit := pit2, timers := cancelAll s.timers sat, cbs := s.cbs ++ cbs }, .cbs cbs)
   | .nack name =>
     -- engine.go onNack
-    match exactMatch s.pit name with
+    let (dig, nodeName) := splitDigest name
+    match exactMatch s.pit nodeName with
     | none => (s, .cbs [])
     | some n =>
       let lst := getVal [] s.pit n
-      let cbs := lst.map fun p => (⟨p.id, .nack, s.now⟩ : Cb)
-      let pit1 := setVal s.pit n []
+      let hit := lst.filter fun p => decide (p.dig = dig)
+      let keep := lst.filter fun p => !decide (p.dig = dig)
+      let cbs := hit.map fun p => (⟨p.id, .nack, s.now⟩ : Cb)
+      let pit1 := setVal s.pit n keep
       let pit2 := prune isEmptyList pit1 n
-      ({ s with pit := pit2, timers := cancelAll s.timers lst, cbs := s.cbs ++ cbs }, .cbs cbs)
+      ({ s with pit := pit2, timers := cancelAll s.timers hit, cbs := s.cbs ++ cbs }, .cbs cbs)
   | .setTime t => ({ s with now := max s.now t }, .ok)
   | .timerStart k =>
     match s.timers[k]? with
